@@ -5,6 +5,7 @@ import (
 	"go/ast"
 	"go/token"
 	"go/types"
+	"strings"
 )
 
 // frameObl records an obligation decided by the syntactic frame pass (no solver involved).
@@ -22,6 +23,50 @@ func (e *Engine) frameObl(name string, props []string, ok bool, pos, desc, detai
 
 func (e *Engine) addFrameObligations() {
 	e.addGlobalInvObligations()
+	e.addAssignsObligations()
+}
+
+// addAssignsObligations: a contract's `assigns` clause must cover the transitive write set computed by the frame pass
+// (callers havoc exactly the listed heaps).
+func (e *Engine) addAssignsObligations() {
+	for _, key := range e.P.CF.Order {
+		c := e.P.CF.Contracts[key]
+		if !c.HasAssigns {
+			continue
+		}
+		fi := e.P.Funcs[key]
+		if fi == nil || fi.Obj == nil {
+			continue
+		}
+		t := e.effects.Trans[fi.Obj]
+		if t == nil {
+			continue
+		}
+		star := false
+		for _, w := range c.Assigns {
+			if w == "*" {
+				star = true
+			}
+		}
+		var bad []string
+		if !star {
+			if t.Top {
+				bad = append(bad, "calls unknown code: "+strings.Join(t.TopWhy, "; "))
+			}
+			for _, k := range keysList(t.Writes) {
+				ok := false
+				for _, w := range c.Assigns {
+					if matchKey(k, w) || k == w {
+						ok = true
+					}
+				}
+				if !ok {
+					bad = append(bad, k)
+				}
+			}
+		}
+		e.frameObl("frame:"+key+"/assigns", c.Props, len(bad) == 0, e.posStr(fi.Decl.Pos()), "assigns clause of "+key+" covers every heap the function (transitively) writes", "not covered: "+strings.Join(bad, ", "))
+	}
 }
 
 // addGlobalInvObligations: a declared global invariant is (1) established by the variable's initialiser and
